@@ -43,8 +43,15 @@ Proof.
   - destruct H as [H|H]; [left; auto|]. destruct (IH i H); auto.
 Qed.
 
+Lemma map_beh_upd_f (f : rproc -> rproc) i ps :
+  (forall p, p_beh (f p) = p_beh p) -> map p_beh (upd i f ps) = map p_beh ps.
+Proof. intro Hf. revert i; induction ps as [|p ps IH]; intros [|i]; cbn; auto; f_equal; auto. Qed.
+
 Lemma map_beh_upd st i ps : map p_beh (upd i (set_st st) ps) = map p_beh ps.
-Proof. revert i; induction ps as [|p ps IH]; intros [|i]; cbn; auto; f_equal; auto. Qed.
+Proof. apply map_beh_upd_f. reflexivity. Qed.
+
+Lemma map_beh_upd_ret r i ps : map p_beh (upd i (ret_with r) ps) = map p_beh ps.
+Proof. apply map_beh_upd_f. reflexivity. Qed.
 
 (* ------------------------------------------------------------------------------------------ *)
 (* finished goroutines *)
@@ -85,8 +92,8 @@ Proof.
   - cbn [upd]. rewrite !ndone_cons. rewrite (IH i H Hn). lia.
 Qed.
 
-Lemma ndone_upd_sending i ps p :
-  nth_error ps i = Some p -> p_st p = Running -> ndone (upd i (set_st Sending) ps) = ndone ps.
+Lemma ndone_upd_sending r i ps p :
+  nth_error ps i = Some p -> p_st p = Running -> ndone (upd i (ret_with r) ps) = ndone ps.
 Proof.
   revert i; induction ps as [|q ps IH]; intros [|i] H Hn; cbn in H; try discriminate.
   - inversion H; subst. cbn [upd]. rewrite !ndone_cons. unfold is_done; cbn. rewrite Hn. reflexivity.
@@ -106,21 +113,21 @@ Proof.
     apply Permutation_app_head. apply IH; auto.
 Qed.
 
-Lemma collected_upd_sending i ps p :
+Lemma collected_upd_sending r i ps p :
   nth_error ps i = Some p -> p_st p = Running ->
-  collected (upd i (set_st Sending) ps) = collected ps.
+  collected (upd i (ret_with r) ps) = collected ps.
 Proof.
   revert i; induction ps as [|q ps IH]; intros [|i] H Hn; cbn in H; try discriminate.
-  - inversion H; subst. cbn [upd]. unfold collected; cbn [flat_map set_st p_st]. rewrite Hn.
+  - inversion H; subst. cbn [upd]. unfold collected; cbn [flat_map ret_with p_st]. rewrite Hn.
     reflexivity.
   - cbn [upd]. unfold collected; cbn [flat_map]. fold (collected ps).
-    fold (collected (upd i (set_st Sending) ps)). f_equal. apply IH; auto.
+    fold (collected (upd i (ret_with r) ps)). f_equal. apply IH; auto.
 Qed.
 
-Lemma collected_fresh bs : collected (map (fun b => mkp b Running) bs) = [].
+Lemma collected_fresh bs : collected (map (fun b => mkp b Running None) bs) = [].
 Proof. induction bs; cbn; auto. Qed.
 
-Lemma ndone_fresh bs : ndone (map (fun b => mkp b Running) bs) = 0.
+Lemma ndone_fresh bs : ndone (map (fun b => mkp b Running None) bs) = 0.
 Proof. induction bs; cbn; auto. Qed.
 
 Lemma collected_all_done ps :
@@ -141,6 +148,24 @@ Definition spawned (s : rstate) : Prop := spawned_pc (r_pc s).
 Definition some_done_l (ps : list rproc) : Prop := exists p, In p ps /\ p_st p = Done.
 Definition some_done (s : rstate) : Prop := some_done_l (r_procs s).
 
+(* what a goroutine that has returned holds: the scripted result, or - for a [CtxErr] runner - what
+   the (by then cancelled) context reports *)
+Definition res_ok (canc : bool) (cerr : err) (p : rproc) : Prop :=
+  p_st p <> Running ->
+  match p_beh p with
+  | CtxErr => canc = true /\ p_res p = Some cerr
+  | b => p_res p = result_of canceled b
+  end.
+
+Lemma res_ok_mono c e e' p : res_ok c e p -> res_ok true (if c then e else e') p.
+Proof.
+  unfold res_ok. intros H Hn. specialize (H Hn). destruct (p_beh p); auto.
+  destruct H as [-> H]. auto.
+Qed.
+
+Lemma res_ok_done c e p : p_st p <> Running -> res_ok c e p -> res_ok c e (set_st Done p).
+Proof. unfold res_ok. intros Hn H _. cbn [set_st p_beh p_res]. apply H. exact Hn. Qed.
+
 Record rinv (v : variant) (bs : list beh) (s : rstate) : Prop := mkrinv {
   i_idle : r_running s = false -> r_pc s = RIdle;
   i_run : r_pc s <> RIdle -> r_running s = true;
@@ -155,7 +180,8 @@ Record rinv (v : variant) (bs : list beh) (s : rstate) : Prop := mkrinv {
   i_canc2 : r_cancelled s = true ->
             r_parent s = true \/ some_done_l (r_procs s) \/ exists e, r_pc s = RReturned e;
   i_init : exists tl0, r_runners s = bs ++ tl0;
-  i_pref : spawned_pc (r_pc s) -> exists tl1, map p_beh (r_procs s) = bs ++ tl1
+  i_pref : spawned_pc (r_pc s) -> exists tl1, map p_beh (r_procs s) = bs ++ tl1;
+  i_res : forall p, In p (r_procs s) -> res_ok (r_cancelled s) (r_cerr s) p
 }.
 
 Lemma rinv_init v bs : rinv v bs (new_rm bs).
@@ -168,13 +194,13 @@ Qed.
 Ltac inv H := inversion H; subst; clear H.
 
 Ltac fin :=
-  cbn [r_running r_runners r_pc r_procs r_cancelled r_parent r_closech r_adds r_rejected spawned_pc];
+  cbn [r_running r_runners r_pc r_procs r_cancelled r_cerr r_parent r_closech r_adds r_rejected spawned_pc];
   auto; try discriminate; try tauto; try (intros; discriminate); try (intro; congruence);
   try (intros [?|?]; discriminate).
 
 Lemma rinv_step v bs s e s' : rinv v bs s -> step_r v s e = Some s' -> rinv v bs s'.
 Proof.
-  intros I H. destruct I as [Iidle Irun Inop Isnap Icoll Iret Ic1 Ic2 Iinit Ipref].
+  intros I H. destruct I as [Iidle Irun Inop Isnap Icoll Iret Ic1 Ic2 Iinit Ipref Ires].
   destruct e; cbn [step_r] in H.
   - (* RAddCheck *)
     inv H. constructor; fin.
@@ -206,14 +232,15 @@ Proof.
       * rewrite (Inop (or_intror eq_refl)) in Hp. destruct Hp.
       * discriminate.
     + intros _. rewrite map_map. cbn. rewrite map_id. exact Iinit.
+    + intros p Hp Hn. apply in_map_iff in Hp. destruct Hp as [b [<- _]]. cbn in Hn. congruence.
   - (* RRunnerReturn *)
     destruct (nth_error (r_procs s) i) as [p|] eqn:Ep; try discriminate.
     destruct (p_st p) eqn:Est; try discriminate.
-    destruct (may_return s (p_beh p)); inv H.
+    destruct (may_return s (p_beh p)) eqn:Emr; inv H.
     assert (Hnd : p_st p <> Done) by congruence.
     constructor; fin.
     + intros Hpc. specialize (Inop Hpc). rewrite Inop in Ep. destruct i; discriminate.
-    + intro Hs. rewrite map_beh_upd. auto.
+    + intro Hs. rewrite map_beh_upd_ret. auto.
     + intros k e Hpc. destruct (Icoll k e Hpc) as [-> HP]. split.
       * symmetry. eapply ndone_upd_sending; eauto.
       * erewrite collected_upd_sending; eauto.
@@ -223,10 +250,13 @@ Proof.
       * exists q; auto.
       * cbn in Hd. discriminate.
     + intro Hc. destruct (Ic2 Hc) as [Hc'|[[q [Hq Hd]]|He]]; auto.
-      right; left. destruct (in_upd_old i (set_st Sending) _ _ Hq) as [Hq'|Hq'].
+      right; left. destruct (in_upd_old i (ret_with (result_of (r_cerr s) (p_beh p))) _ _ Hq) as [Hq'|Hq'].
       * exists q; auto.
       * rewrite Ep in Hq'. inv Hq'. congruence.
-    + intro Hs. rewrite map_beh_upd. auto.
+    + intro Hs. rewrite map_beh_upd_ret. auto.
+    + intros q Hq. apply in_upd in Hq. destruct Hq as [Hq|[p' [E ->]]]; [auto|].
+      rewrite Ep in E. inv E. intros _. cbn [ret_with p_beh p_res].
+      unfold may_return in Emr. destruct (p_beh p'); cbn [result_of]; auto.
   - (* RCollect *)
     destruct (r_pc s) as [| |k errs|] eqn:Epc; try discriminate.
     destruct (nth_error (r_procs s) i) as [p|] eqn:Ep; try discriminate.
@@ -243,6 +273,10 @@ Proof.
         apply Permutation_app_tail. exact HP.
     + intros _. right; left. exists (set_st Done p). split; [eapply in_upd_new; eauto | reflexivity].
     + intros _. rewrite map_beh_upd. apply Ipref. exact I.
+    + intros q Hq. unfold cerr_after. apply in_upd in Hq. destruct Hq as [Hq|[p' [E ->]]].
+      * apply res_ok_mono. auto.
+      * rewrite Ep in E. inv E. apply res_ok_done; [congruence|]. apply res_ok_mono.
+        apply Ires. eapply nth_error_In; eauto.
   - (* RRunReturn *)
     destruct (r_pc s) as [| |k errs|] eqn:Epc; try discriminate.
     destruct (k <? target v s)%nat eqn:Ek; inv H.
@@ -255,8 +289,10 @@ Proof.
     constructor; fin.
     + intros e H. inv H. split; [apply ndone_all; lia | exact HP].
     + intros _. right; right. eauto.
+    + intros q Hq. unfold cerr_after. apply res_ok_mono. auto.
   - (* RCtxCancel *)
     inv H. constructor; fin.
+    intros q Hq. unfold cerr_after. apply res_ok_mono. auto.
   - (* RCloseCh *)
     inv H. constructor; fin.
 Qed.
@@ -327,11 +363,31 @@ Qed.
 (* the error Run returns is the join of exactly the non-nil, non-Canceled results, as a multiset *)
 Lemma rm_error_join : forall v bs es s errs,
   run_r v (new_rm bs) es = Some s -> r_pc s = RReturned errs ->
-  Permutation errs (flat_map (fun p => olist (filt (beh_result (p_beh p)))) (r_procs s)).
+  Permutation errs (flat_map (fun p => olist (filt (p_res p))) (r_procs s)) /\
+  (forall p, In p (r_procs s) ->
+     match p_beh p with
+     | CtxErr => r_cancelled s = true /\ p_res p = Some (r_cerr s)
+     | Free r | OnCancel r => p_res p = r
+     | CloseRunner => p_res p = None
+     end).
 Proof.
   intros v bs es s errs H Hpc. apply rinv_reach in H.
-  destruct (i_ret _ _ _ H errs Hpc) as [Ha HP].
-  rewrite (collected_all_done _ Ha) in HP. exact HP.
+  destruct (i_ret _ _ _ H errs Hpc) as [Ha HP]. split.
+  - rewrite (collected_all_done _ Ha) in HP. exact HP.
+  - intros p Hp. pose proof (i_res _ _ _ H p Hp) as Hr. unfold res_ok in Hr.
+    assert (Hn : p_st p <> Running) by (rewrite (Ha p Hp); discriminate).
+    specialize (Hr Hn). destruct (p_beh p); auto.
+Qed.
+
+(* what the context reports: Canceled unless the caller's context ended first with something else;
+   it never changes once set *)
+Lemma rm_ctx_err_stable : forall v s e s',
+  step_r v s e = Some s' -> r_cancelled s = true -> r_cancelled s' = true /\ r_cerr s' = r_cerr s.
+Proof.
+  intros v s e s' H Hc. destruct e; cbn [step_r] in H;
+    repeat match type of H with
+           | context [match ?x with _ => _ end] => destruct x; try discriminate
+           end; inv H; unfold cerr_after; cbn; rewrite ?Hc; auto.
 Qed.
 
 (* a manager runs at most once: once started, every further Run call is refused and changes
@@ -340,8 +396,8 @@ Lemma rm_runs_once : forall v bs es s,
   run_r v (new_rm bs) es = Some s ->
   (r_running s = true ->
      step_r v s RRunCas =
-     Some (mkr true (r_runners s) (r_pc s) (r_procs s) (r_cancelled s) (r_parent s) (r_closech s)
-               (r_adds s) (S (r_rejected s)))) /\
+     Some (mkr true (r_runners s) (r_pc s) (r_procs s) (r_cancelled s) (r_cerr s) (r_parent s)
+               (r_closech s) (r_adds s) (S (r_rejected s)))) /\
   (r_pc s <> RIdle -> r_running s = true) /\
   (spawned s -> step_r v s RSpawn = None).
 Proof.
@@ -422,3 +478,21 @@ Example oncancel_waits :
   run_r Fixed (new_rm [Free (Some 5%Z); OnCancel (Some 0%Z)]) [RRunCas; RSpawn; RRunnerReturn 1]
   = None.
 Proof. vm_compute. reflexivity. Qed.
+
+(* the caller's context ends by its DEADLINE: a runner that returns ctx.Err() returns
+   DeadlineExceeded, which is not Canceled and therefore part of the join ... *)
+Example deadline_is_reported :
+  exists s, run_r Fixed (new_rm [CtxErr; OnCancel None])
+                  [RRunCas; RSpawn; RCtxCancel deadline; RRunnerReturn 0; RCollect 0;
+                   RRunnerReturn 1; RCollect 1; RRunReturn] = Some s /\
+            r_pc s = RReturned [deadline].
+Proof. eexists. split; [vm_compute; reflexivity|]. reflexivity. Qed.
+
+(* ... while after the manager's own cancel() (another runner returned first) the same runner
+   returns Canceled, which is dropped - even if the caller's deadline passes afterwards *)
+Example own_cancel_is_canceled :
+  exists s, run_r Fixed (new_rm [Free None; CtxErr])
+                  [RRunCas; RSpawn; RRunnerReturn 0; RCollect 0; RCtxCancel deadline;
+                   RRunnerReturn 1; RCollect 1; RRunReturn] = Some s /\
+            r_pc s = RReturned [] /\ r_cerr s = canceled.
+Proof. eexists. split; [vm_compute; reflexivity|]. split; reflexivity. Qed.
